@@ -73,6 +73,48 @@ fn vocabulary() -> Vec<String> {
     v
 }
 
+/// Numbers and dimensions of arbitrary length: 1-40 integer digits (decimal, octal or hex),
+/// 0-40 fraction digits, a unit.
+fn long_number(rng: &mut Rng, dimension: bool) -> String {
+    let mut s = String::new();
+    if rng.chance(1, 4) {
+        s.push('-');
+    }
+    let radix = if dimension { 0 } else { rng.below(4) };
+    let digits: &[u8] = match radix {
+        1 => {
+            s.push('\'');
+            b"01234567"
+        }
+        2 => {
+            s.push('"');
+            b"0123456789ABCDEF"
+        }
+        _ => b"0123456789",
+    };
+    let n = [0usize, 1, 2, 9, 10, 11, 16, 17, 18, 19, 20, 40][rng.below(12)];
+    let lead_zeros = rng.chance(1, 3);
+    for k in 0..n {
+        let d = if lead_zeros && k + 3 < n { b'0' } else { digits[rng.below(digits.len())] };
+        s.push(d as char);
+    }
+    if dimension || rng.chance(1, 5) {
+        let f = [0usize, 1, 5, 16, 17, 18, 19, 20, 33, 40][rng.below(10)];
+        if f > 0 || n == 0 {
+            s.push(if rng.chance(1, 6) { ',' } else { '.' });
+            let small = rng.chance(1, 2);
+            for k in 0..f {
+                let d = if small && k + 1 < f { b'0' } else { digits[rng.below(10.min(digits.len()))] };
+                s.push(d as char);
+            }
+        }
+        if dimension {
+            s.push_str(["pt", "sp", "fil", "em", "truein", "bp", "cc", "dd", "mm", "in", "pc", "cm", "fill", "filll", "ex"][rng.below(15)]);
+        }
+    }
+    s
+}
+
 fn soup_line(rng: &mut Rng, vocab: &[String]) -> String {
     let n = 1 + rng.below(8);
     let mut s = String::new();
@@ -80,10 +122,14 @@ fn soup_line(rng: &mut Rng, vocab: &[String]) -> String {
         let x = rng.below(100);
         let t: String = if x < 45 {
             vocab[rng.below(vocab.len())].clone()
-        } else if x < 65 {
+        } else if x < 62 {
             NUMBERS[rng.below(NUMBERS.len())].to_string()
-        } else if x < 75 {
+        } else if x < 65 {
+            long_number(rng, false)
+        } else if x < 72 {
             DIMENS[rng.below(DIMENS.len())].to_string()
+        } else if x < 75 {
+            long_number(rng, true)
         } else {
             MISC[rng.below(MISC.len())].to_string()
         };
@@ -97,8 +143,20 @@ fn soup_line(rng: &mut Rng, vocab: &[String]) -> String {
 
 /// Targeted templates: primitives applied to boundary arguments.
 fn template_line(rng: &mut Rng, vocab: &[String]) -> String {
-    let num = |rng: &mut Rng| NUMBERS[rng.below(NUMBERS.len())].to_string();
-    let dim = |rng: &mut Rng| DIMENS[rng.below(DIMENS.len())].to_string();
+    let num = |rng: &mut Rng| {
+        if rng.chance(1, 6) {
+            long_number(rng, false)
+        } else {
+            NUMBERS[rng.below(NUMBERS.len())].to_string()
+        }
+    };
+    let dim = |rng: &mut Rng| {
+        if rng.chance(1, 4) {
+            long_number(rng, true)
+        } else {
+            DIMENS[rng.below(DIMENS.len())].to_string()
+        }
+    };
     let cs = |rng: &mut Rng| vocab[rng.below(vocab.len())].clone();
     match rng.below(30) {
         0 => format!("\\count{}={} ", num(rng), num(rng)),
